@@ -643,9 +643,12 @@ bool RegularExpression::matches(const XMLCh* const expression, const XMLSize_t s
             for (matchStart=context.fStart; matchStart<=limit; matchStart++) {
 
                 XMLInt32 ch;
+                // nextCh moves its offset over a surrogate pair; the match
+                // itself has to start on the first unit of the character
+                XMLSize_t chPos = matchStart;
 
-                if (!context.nextCh(ch, matchStart))
-                    break;
+                if (!context.nextCh(ch, chPos))
+                    continue;
 
                 if (!range->match(ch))
                     continue;
